@@ -594,6 +594,8 @@ func (n *Node) dispatch(c *Conn, args [][]byte) Reply {
 			cl.record(ev)
 			if cmd != "asking" {
 				c.asking = false
+			} else {
+				c.asking = true // a scripted reply to ASKING still arms the flag (the node did see ASKING)
 			}
 			return rep
 		}
